@@ -23,6 +23,7 @@ META = {
     "assumptions": [],
     "not_decided": "that tokio delivers independently of polling; equality of element values (T: Clone is assumed faithful)",
 }
+META["explanation"] += ' R05.9 the Vec the batched stream accumulates for one item is only ever grown (no clear / truncate / pop / drain of received diffs).'
 
 VEC_T = "vector::ObservableVector<T>"
 TXN_T = "vector::transaction::ObservableVectorTransaction<'o, T>"
